@@ -25,7 +25,7 @@ def run(F, tier, res):
     E.add_e1(res, R, {'ORD-W', 'ORD-B', 'ORD-M', 'ORD-P', 'DROP', 'ONCE', 'EOF', 'DECLINE-CONSUME'}, 'C01')
     N = R['N']
     es = N['event_sites']
-    res.rule('C01.ORD-W', len(es.get('DIRECT_W', [])), 12, 'direct-write sites (function, callee) reached from consume; each checked in every abstract state reaching it: output_buffer and subhunk buffers empty',
+    res.rule('C01.ORD-W', len(es.get('DIRECT_W', [])), 7, 'direct-write sites (function, callee) reached from consume; each checked in every abstract state reaching it: output_buffer and subhunk buffers empty',
              samples=es.get('DIRECT_W', [])[:4])
     res.rule('C01.FLUSH', len(es.get('FLUSH_W', [])), 1, 'flush sites (writer call carrying output_buffer, followed by clear)', samples=es.get('FLUSH_W', [])[:2])
     res.rule('C01.ORD-B', len(es.get('APPEND_OB', [])), 4, 'append sites on output_buffer; subhunk buffers must be empty or painted', samples=es.get('APPEND_OB', [])[:3])
